@@ -83,6 +83,9 @@ pub enum Op {
         v2: bool,
     },
     Swap { a_to_b: bool, exact_in: bool, amount: u64, lim: Lim, v2: bool },
+    /// initialize_tick_array / initialize_dynamic_tick_array (permissionless) for the array `off` arrays away from array 0. On an
+    /// array that already exists it must change nothing: refused, or (dynamic, idempotent) accepted as a no-op.
+    InitTa { off: i8, dynamic: bool, idempotent: bool },
     Update { pos: u8 },
     /// reposition_liquidity_v2: move the position to [lower, upper) with the given new liquidity
     Repos {
@@ -258,6 +261,14 @@ pub fn build(l: &Ledger, w: &StdWorld, op: &Op) -> Option<Instruction> {
             };
             let tas = world::swap_tick_arrays(&w.pool, st.tick_current_index, *a_to_b);
             Some(world::ix_swap(&w.pool, &w.trader, a, tas, *v2, &[]))
+        }
+        Op::InitTa { off, dynamic, idempotent } => {
+            let start = *off as i32 * w.pool.ticks_in_array();
+            let mut ix = world::ix_init_tick_array(&w.pool, w.funder, start, *dynamic);
+            if *dynamic && *idempotent {
+                ix.data = anchor_lang::InstructionData::data(&whirlpool::instruction::InitializeDynamicTickArray { start_tick_index: start, idempotent: true });
+            }
+            Some(ix)
         }
         Op::Update { pos } => Some(world::ix_update_fees_and_rewards(&w.positions[*pos as usize].at(l))),
         Op::CollectFees { pos, v2 } => Some(world::ix_collect_fees(&w.positions[*pos as usize].at(l), &w.lp, *v2)),
